@@ -17,7 +17,11 @@ def run(chk):
                 "least one data read of a produced array; distinct = (executor, options, plan shape)")
     dagexec_p1.run(chk, {"sched"})
     n = 24 if chk.tier == "quick" else 300
-    docs, metas, verdicts = realexec.run_many(chk, "C07", n)
+    import random
+    from harness import programs
+    rng = random.Random(chk.seed + 71)
+    extra = [programs.structured(rng) for _ in range(n // 2)]
+    docs, metas, verdicts = realexec.run_many(chk, "C07", n, extra_programs=extra)
     first_ok = None
     for k, (doc, meta) in enumerate(zip(docs, metas), 1):
         verdict, l = verdicts[k]
